@@ -189,8 +189,7 @@ Lemma edgeIdxU_spec wraps relMS : 0 <= relMS < loopMS -> D < two64 ->
 Proof.
   intros Hrel HD. pose proof (relT_range relMS Hrel) as HT. pose proof (wf_ts _ _ W).
   pose proof (edge_spec wraps _ HT) as Hs. cbn zeta in Hs.
-  unfold edgeIdxU. rewrite Z.quot_div_nonneg by nia.
-  rewrite (u64_id (relMS * ts r / 1000)) by lia. rewrite Z.add_0_r.
+  unfold edgeIdxU. rewrite Z.add_0_r. rewrite Z.quot_div_nonneg by nia.
   rewrite (u64_id (relMS * ts r / 1000)) by lia. exact Hs.
 Qed.
 
@@ -236,7 +235,6 @@ Proof.
   rewrite !Z.quot_div_nonneg by lia.
   unfold generateTimelineEntriesU.
   cbn [startWraps startRelMS nowWraps nowRelMS].
-  change (Z.quot (0 * ts r) 1000) with (Z.quot 0 1000). change (u64 (Z.quot 0 1000)) with 0.
   pose proof (edgeIdxU_spec (stMS / loopMS) (stMS - stMS / loopMS * loopMS) ltac:(lia) HD) as Hs.
   pose proof (edgeIdxU_spec (nowMS / loopMS) (nowMS - nowMS / loopMS * loopMS) ltac:(lia) HD) as Hn.
   rewrite (ticks_split stMS) in Hs by lia. rewrite (ticks_split nowMS) in Hn by lia.
